@@ -81,7 +81,7 @@ var Strings = []strForm{
 	{"'two\nlines'", "two\nlines"}, {"'héllo wörld'", "héllo wörld"}, {"'日本語'", "日本語"}, {"'100%'", "100%"}, {"'$1'", "$1"}, {"';'", ";"},
 }
 
-var QIdents = []strForm{{`"abc"`, "abc"}, {`"Mixed Case"`, "Mixed Case"}, {`"select"`, "select"}, {`"a""b"`, `a"b`}, {`"from"`, "from"}, {`"naïve col"`, "naïve col"}, {`"a.b"`, "a.b"}, {`"it's"`, "it's"}}
+var QIdents = []strForm{{`"a\tb"`, `a\tb`}, {`"C:\data"`, `C:\data`}, {`"dom\user"`, `dom\user`}, {`"100\%"`, `100\%`}, {`"back\\slash"`, `back\\slash`}, {`"abc"`, "abc"}, {`"Mixed Case"`, "Mixed Case"}, {`"select"`, "select"}, {`"a""b"`, `a"b`}, {`"from"`, "from"}, {`"naïve col"`, "naïve col"}, {`"a.b"`, "a.b"}, {`"it's"`, "it's"}}
 
 var Backticks = []strForm{{"`abc`", "abc"}, {"`select`", "select"}, {"`my col`", "my col"}, {"`order`", "order"}}
 
